@@ -121,3 +121,62 @@ example : dnfShaped (.and (.or (.lic [77,73,84] false none) (.lic [73,83,67] fal
 example : orRank (.and (.or (.lic [77,73,84] false none) (.lic [73,83,67] false none)) (.lic [90,108,105,98] false none)) = 1 := by decide
 
 end Spdx.C14
+
+namespace Spdx.C14
+
+/-- the number of opening parentheses among the tokens -/
+def lparens : List Tok → Nat
+  | [] => 0
+  | .op .lparen :: r => lparens r + 1
+  | _ :: r => lparens r
+
+theorem lparens_append (a b : List Tok) : lparens (a ++ b) = lparens a + lparens b := by
+  induction a with
+  | nil => simp [lparens]
+  | cons t a ih =>
+    cases t with
+    | op o => cases o <;> simp [lparens, ih] <;> omega
+    | _ => simp [lparens, ih]
+
+/-- **the rank can be read off the text**: an OR group that is multiplied with another one has to be written in parentheses
+    (AND binds tighter than OR), so the rank of a grammatical token sequence is at most its number of opening parentheses
+    (at most 1 when there are none) -/
+theorem orRank_le_lparens {lv : Lvl} {ts : List Tok} {n : Node} (h : D lv ts n) :
+    orRank n ≤ (if lv = .expr then max 1 (lparens ts) else lparens ts) := by
+  induction h with
+  | ref0 | ref1 | lic | licP | licW | licPW => simp [orRank]
+  | @paren ts n _ ih =>
+    simp only [if_true] at ih
+    simp only [reduceCtorEq, if_false]
+    have : lparens (.op .lparen :: ts ++ [.op .rparen]) = lparens ts + 1 := by
+      show lparens (.op .lparen :: (ts ++ [.op .rparen])) = _
+      simp [lparens, lparens_append]
+    rw [this]; omega
+  | and1 _ ih => simpa using ih
+  | or1 _ ih =>
+    simp only [reduceCtorEq, if_false] at ih
+    simp only [if_true]; omega
+  | @andC a b l r _ _ iha ihb =>
+    simp only [reduceCtorEq, if_false] at iha ihb ⊢
+    have : lparens (a ++ .op .and_ :: b) = lparens a + lparens b := by
+      rw [lparens_append]; simp [lparens]
+    simp only [orRank]; omega
+  | @orC a b l r _ _ iha ihb =>
+    simp only [reduceCtorEq, if_false, if_true] at iha ihb ⊢
+    have : lparens (a ++ .op .or_ :: b) = lparens a + lparens b := by
+      rw [lparens_append]; simp [lparens]
+    simp only [orRank]; omega
+
+/-- **cost bound from the text alone**: a valid expression with `p` opening parentheses materialises at most `|s|^max(1,p)`
+    alternatives and `|s|^(max(1,p)+1)` leaf slots — polynomial for any fixed number of parenthesised groups; the
+    exponential family of the finding D8 is the one that keeps adding groups -/
+theorem cost_polynomial_in_parens (s : Bytes) (n : Node) (h : parse s = .ok n) :
+    ∃ ts, toks s = some ts ∧ (expand n).length ≤ s.length ^ max 1 (lparens ts) ∧
+      slotsOf (expandTerm n) ≤ s.length ^ (max 1 (lparens ts) + 1) := by
+  obtain ⟨ts, h1, h2⟩ := (parse_ok_iff s n).mp h
+  have hd := (parseTokens_iff _ _).mp h2
+  have hr := orRank_le_lparens hd
+  simp only [if_true] at hr
+  exact ⟨ts, h1, cost_polynomial_in_rank s n h _ hr⟩
+
+end Spdx.C14
